@@ -576,8 +576,18 @@ fn filelines(args: &[String]) {
             m.insert(name.clone(), sel.iter().map(|(a, b)| Range::new(*a, *b)).collect::<Vec<_>>());
             FileLines::from_ranges(m)
         } else {
-            let js = json!(sel.iter().map(|(a, b)| json!({"file": "stdin", "range": [a, b]})).collect::<Vec<_>>());
-            js.to_string().parse::<FileLines>().unwrap()
+            // every other time the spans of this file are INTERLEAVED with spans that name another
+            // file: the order of the spans of a selection carries no meaning
+            let mut spans = vec![];
+            for (k, (a, b)) in sel.iter().enumerate() {
+                spans.push(json!({"file": "stdin", "range": [a, b]}));
+                if n % 4 == 3 {
+                    // (a file named in a selection has to exist: any existing file will do)
+                    let other = std::env::current_exe().unwrap();
+                    spans.push(json!({"file": other.to_str().unwrap(), "range": [k + 1, k + 2]}));
+                }
+            }
+            json!(spans).to_string().parse::<FileLines>().unwrap()
         };
         let norm = verif::file_lines_ranges(&fl, &name);
         let mut q = vec![];
